@@ -194,7 +194,9 @@ sqfs_s32 sqfs_istream_splice(sqfs_istream_t *in, sqfs_ostream_t *out, sqfs_u32 s
 { (void)in; (void)out; (void)size; g_fault = true; return SQFS_ERROR_IO; }
 int c13_ostream_flush(sqfs_ostream_t *strm) { (void)strm; return 0; }
 
+#define main tool_main
 #include "bin/gensquashfs/src/mkfs.c"
+#undef main
 
 void harness(void)
 {
@@ -209,7 +211,7 @@ void harness(void)
 	g_pre_failed = false;
 	g_opt = NULL;
 
-	status = main(1, argv);
+	status = tool_main(1, argv);
 
 	want = MS_INIT | MS_INPUT | MS_POST | MS_XATTR | MS_FINISH;
 	if (g_sort_opened)
